@@ -26,6 +26,9 @@ MIDSAVE = [
     ('msgpack', 'v_enum', dict(badenum=1, maxsize=4), 'enum value that is not registered'),
     ('json', 'v_f64', dict(nonfinite=1, maxsize=30), 'NaN / Infinity saved to JSON'),
     ('json', 'v_f64', dict(nonfinite=1, maxsize=30, sink='sstream', enc='utf16be'), 'NaN / Infinity saved to JSON (stream)'),
+    ('json', 'v_f64', dict(nonfinite=1, maxsize=30, sink='sstream', fmt=1, padc='s', padn=2), 'NaN / Infinity saved to formatted JSON (stream)'),
+    ('json', 'v_f64', dict(nonfinite=1, maxsize=30, sink='mem', fmt=1, padc='t', padn=1), 'NaN / Infinity saved to formatted JSON (memory)'),
+    ('json', 'containers', dict(nonfinite=1, maxsize=12, sink='sstream', fmt=1, enc='utf32le', bom=1), 'NaN / Infinity inside a class saved to formatted JSON (UTF-32 stream)'),
     ('json', 'v_str', dict(badutf=1, sink='sstream', enc='utf16le', utf='throw', maxsize=3), 'JSON string with invalid UTF-8 to a UTF-16 stream'),
 ]
 
